@@ -40,6 +40,11 @@ Proof.
   apply fold_max_Qmax. reflexivity.
 Qed.
 
+Lemma existsb_const_false {A} (l : list A) : existsb (fun _ => false) l = false.
+Proof. induction l; simpl; auto. Qed.
+Lemma forallb_const_true {A} (l : list A) : forallb (fun _ => true) l = true.
+Proof. induction l; simpl; auto. Qed.
+
 (* enumerate(l) -> positions, comprehensions over it -> comprehensions over the positions *)
 Ltac py_enum_norm :=
   repeat first
@@ -54,6 +59,8 @@ Ltac py_enum_norm :=
         rewrite (nth_map_seq G n k d) by (apply in_seq in H; lia)
     end
   | rewrite map_map | rewrite filter_map_comm | rewrite existsb_map | rewrite forallb_map
+  | rewrite existsb_flat_map | rewrite forallb_flat_map | rewrite Qsum_flat_map
+  | rewrite existsb_const_false | rewrite forallb_const_true
   | rewrite if_true_false | rewrite if_true_else | rewrite if_else_true | rewrite py_nat_Qnat
   | rewrite maxpay_py | rewrite Qmax_if
   | rewrite py_list_get_seq by assumption ];
@@ -130,10 +137,11 @@ Ltac py_validator :=
   | |- context [if ?c then _ else _] => is_var c; destruct c
   | |- context [negb ?c] => is_var c; destruct c
   end;
-  cbn [negb orb andb]; rewrite ?andb_true_r; rewrite ?negb_orb;
-  (* one conjunct per error list, in source order *)
-  repeat apply (f_equal2 andb); cbv beta;
-  solve [ py_descend ].
+  cbn [negb orb andb]; rewrite ?negb_orb;
+  (* one conjunct per error list, in source order (a conjunct that the flags made trivially true may be absent on
+     one side) *)
+  first [ timeout 60 solve [ repeat apply (f_equal2 andb); cbv beta; cbn [andb]; py_descend ]
+        | timeout 60 solve [ rewrite ?andb_true_r; repeat apply (f_equal2 andb); cbv beta; py_descend ] ].
 
 Lemma gen_validate_price_system_ok : forall I A W b P stable exh,
   gen_validate_price_system I A W b P stable exh = Priceability.validate_ps I A W b P stable exh.
